@@ -400,9 +400,10 @@ type node struct {
 	hist        []string // human-readable history of this node (replay)
 	sizeOv      int      // producer-count override in force (0 = none)
 	events      int
-	quiet       bool          // no per-node history (exploration: the schedule log replays the case)
-	gaps        []gapAdoption // reorganisations adopted below a reported LIB through the restart veto gap
-	maxLibStale bool          // maxLib was a stale report (never on this node's main chain)
+	quiet       bool             // no per-node history (exploration: the schedule log replays the case)
+	gaps        []gapAdoption    // reorganisations adopted below a reported LIB through the restart veto gap
+	maxLibStale bool             // maxLib was a stale report (never on this node's main chain)
+	libClass    map[*sblk]string // off-chain LIB block -> the class its adoption as LIB showed
 }
 
 func (n *node) selfID() string {
